@@ -192,10 +192,14 @@ theorem C04.linear_flag_sound {K : Type} [Field K] [DecidableEq K] (R : K → Pr
   have : den env e = run env i := funext fun x => (hs x).symm
   rw [this]; exact hinv.2 hl
 
-/-- In-place evaluation (`op(x, out=y)`, the `else` branches of every `_call`, in their
-statement order) gives the same value as out-of-place evaluation, for every tree of
-expression-class instances (built by the overloads or by hand). -/
-theorem C04.inplace_eq_outofplace {K : Type} [Field K] [DecidableEq K]
+/-- `inplace_operand_order`: `runIn` is `run` with the operands of each class combined in the
+ORDER in which the in-place (`out=`) branch of its `_call` combines them (`right(x) + left(x)`,
+`op(x) * s`, `functional(x) * vector`, …).  It is a pure function: this theorem says that the
+operand order of the in-place branches does not change the value (commutativity), nothing
+more.  Buffers, temporaries, `out` aliasing and "result independent of the previous contents of
+`out`" are NOT modelled here (they are property C03/C10); for C04 they are only tested (every
+case is also evaluated with a NaN-prefilled `out`). -/
+theorem C04.inplace_operand_order {K : Type} [Field K] [DecidableEq K]
     (env : Nat → Vec K → Vec K) (i : Impl K) : ∀ x, runIn env i x = run env i x := by
   induction i with
   | leaf l => intro x; rfl
@@ -213,11 +217,12 @@ theorem C04.inplace_eq_outofplace {K : Type} [Field K] [DecidableEq K]
   | const d c => intro x; rfl
   | zero d => intro x; rfl
 
-/-- In-place evaluation of a built expression is the documented-table value as well. -/
+/-- The value with the operand order of the in-place branches is the table value as well
+(see `inplace_operand_order` for what `runIn` is and is not). -/
 theorem C04.build_sound_inplace {K : Type} [Field K] [DecidableEq K] (R : K → Prop)
     (env : Nat → Vec K → Vec K) (e : Expr K) (henv : EnvOK R env e) (i : Impl K)
     (h : build env e = some i) (x : Vec K) : runIn env i x = den env e x := by
-  rw [C04.inplace_eq_outofplace, C04.build_sound R env e henv i h]
+  rw [C04.inplace_operand_order, C04.build_sound R env e henv i h]
 
 /-- `build_type`: the object built for `e` has exactly the domain, range and
 `Functional`-ness that the typing rules of the documented table (`typeOf`, defined on the
@@ -535,7 +540,7 @@ theorem C04.buildT_eq_build_aux {K : Type} [Field K] [DecidableEq K]
           simp only [this, Deleg.eval, negOneTimes, dRMul_scal env b' _ _ h2, Option.map_some,
             Option.bind_some]
           exact pyAdd_op env a' _
-        | mul => exact pyMul_op env a' b' h2
+        | mul => exact pyMul_op env a' b' h1 h2
         | pprod => rfl
         | quot => rfl
   | sc o a s re ih =>
@@ -622,16 +627,16 @@ theorem C04.flag_table_matches {K : Type} [Field K] [DecidableEq K] (i : Impl K)
     i.linBy flagOf = i.lin :=
   linBy_eq_lin i
 
-/-- The remaining extracted facts the interpreter relies on: `A ** n` is the loop of
-right-nested `OperatorComp`, operators out-rank space elements (`__array_priority__`),
-`Functional.__radd__` is `__add__`, and both scalar-merging shortcuts are
-`scalar = scalar * operator.scalar; operator = operator.operator`; `A @ x` is `A.__mul__(x)`
-and the reflected `x @ A` is `A.__rmul__(x)`, so every `@` form is the `*` form of the model. -/
-theorem C04.extracted_facts :
-    tables.powIsCompLoop = true ∧ tables.operatorPriorityHigher = true ∧
-    tables.functionalRAddIsAdd = true ∧ tables.scalarMergeIsProduct = true ∧
-    tables.operatorMatmul = Deleg.selfMulOther ∧ tables.operatorRMatmul = Deleg.selfRMulOther :=
-  ⟨rfl, rfl, rfl, rfl, rfl, rfl⟩
+/-- `call_table_matches`: the out-of-place `_call` body of each of the 19 expression classes
+as EXTRACTED from the source (`return <expression over self.left(…), self.operator(…),
+self.scalar, self.vector, x>`, inherited bodies resolved along the MRO), evaluated by the
+interpreter `runBy`, is the map `run` that all value theorems are about — for every tree of
+expression objects.  (The in-place branches are not interpreted: their statement lists are
+only compared with the modelled ones by the translator, see `runIn`.) -/
+theorem C04.call_table_matches {K : Type} [Field K] [DecidableEq K]
+    (env : Nat → Vec K → Vec K) (i : Impl K) (x : Vec K) :
+    runBy callOf env i x = run env i x :=
+  runBy_eq_run env i x
 
 /-! ### Non-vacuity: concrete instances -/
 
